@@ -69,6 +69,10 @@ CHECKS = {
    text="For programs with symbolic parameters both sensitivity methods of the real code (DiffRecBuilder recurrences solved for delta*M, and differentiation of the closed form) are compared at every n <= N with the parameter derivative of the k-step reference expectation (differentiated symbolically in the harness's own polynomial arithmetic) by one z3 query over all parameter values; get_dependent_variables is checked to contain every variable whose expectation depends on the parameter.",
    ref="DESIGN.md 3/C10", tech="z3 equivalence of the reported sensitivity with d/dp of the reference semantics' expectation (both methods)",
    note="Trusted: vlib/sem.py, vlib/qpoly.py:diff, z3. Bounded: n <= 3/5, <= 2 parameters and <= 3 goals per program; programs whose branch conditions depend on the parameter are outside."),
+ "C17": dict(cat="translation_validation",
+   text="For each program the real pipeline runs under the default and under each representation/strategy setting (conditions to arithmetic, categorical expansion, forced cyclic solver, declared types with and without inference); whenever a goal succeeds under two settings the closed forms are compared at every n <= N by one z3 query over all parameter values (and against the reference semantics on disagreement). Numeric-root options are compared numerically for the exactness flag and an envelope; the CLI flag-to-setting mapping is enumerated.",
+   ref="DESIGN.md 3/C17", tech="pairwise z3 equivalence of closed forms produced under different settings by the real pipeline",
+   note="Trusted: z3; vlib/sem.py when a disagreement is attributed. Bounded: n <= 3/5. Refusals under a setting are permitted by the property and counted. Results containing the constant of a Bernoulli abstraction are outside (not a free parameter)."),
 }
 NA_REASON = "check not built yet in this session (see DESIGN.md section 3 for the planned solver-based check)"
 
